@@ -2,7 +2,7 @@ CONSTANTS
   MaxOps = 3
   MaxParts = 3
   Stores = {"cookie", "redis"}
-  NameLens = {13, 100}
+  NameLens = {13, 100, 250}
   StaleCleanup = TRUE
 INIT Init
 NEXT Next
